@@ -57,6 +57,32 @@ DESC = {
            "a declaration order with an ascent after the maximum has been declared, e.g. A=0, B=9, D=1, C=2: the value list is unsorted"),
  "C18_b": ("C18", "src/parser/mod.rs: unsigned companion of u16/i16 is u8",
            "repr(u16)/repr(i16) with more than 256 variants and a consumer of the table index (as_str table, range)"),
+ "C01_r2": ("C01", "src/parser/mod.rs: run-splitting loop rewritten with windows(2) and `cur.wrapping_sub(prev) > 1`",
+            "two value-adjacent discriminants 2^63 or more apart (i64/i128/isize): the wrapped difference is negative, the runs are glued, the enum is treated as gapless and try_from transmutes hole values"),
+ "C02_r2": ("C02", "src/feature/from_str_fn.rs (gapless table): `wrapping_sub(MIN)` instead of `wrapping_add(MIN)`",
+            "a gapless enum with MIN != 0, the from_str function in table mode (explicit or auto with as_str/FromStr), a valid name: transmute of an invalid discriminant"),
+ "C03_r2": ("C03", "src/feature/table_range.rs: parentheses around the run start dropped (re-introduces F1; third independent rediscovery)",
+            "as_str table mode, with-holes enum, a later run starting at a negative value"),
+ "C04_r2": ("C04", "src/feature/from_str_fn.rs (gapless table): `checked_add(MIN as repr)?` instead of wrapping_add",
+            "from_str function in table mode on a gapless #[repr(i8)] enum with more than 128 variants: names at index >= 128 are rejected (None) while FromStr accepts them"),
+ "C05_r2": ("C05", "src/feature/next_fn.rs (with holes): increment first, then one ascending pass taking the first run with end >= current",
+            "a with-holes enum whose last run touches repr::MAX: next(MAX) wraps to repr::MIN and returns Some(first)"),
+ "C06_r2": ("C06", "src/feature/iter/next_and_back.rs: next_back loses `self.len -= 1`",
+            "next_and_back mode and a mixed history: next_back/nth_back followed by len, size_hint or a front operation"),
+ "C07_r2": ("C07", "src/feature/table_range.rs: `ofs = e0 - b0 + 1` instead of `ofs += ...`",
+            "an enum with at least three runs, range in next_and_back/table/auto mode, an end point in the third or a later run"),
+ "C08_r2": ("C08", "src/feature/iter/mod.rs: rfold forwards to fold",
+            "order-sensitive internal iteration from the back: names().rfold(..), .rev().fold/for_each/last"),
+ "C09_r2": ("C09", "src/feature/table_range.rs: `ofs = e0 - b0 + 1` (same change as C07_r2, found independently)",
+            "as_str resolved to table (explicit or steered by names / a second auto string feature) on a with-holes enum with at least three runs; match mode stays correct"),
+ "C10_r2": ("C10", "src/feature/next_back_fn.rs (gapless): `self == Self::MIN` instead of comparing the reprs - needs PartialEq",
+            "an enum that is only Copy (no PartialEq), gapless, with next_back or iter(mode=next_and_back)"),
+ "C11_r2": ("C11", "src/parser/mod.rs: variant-count limit `>= u16::MAX - 1`",
+            "an enum with exactly 65534 variants (the documented maximum) is rejected with 'too many values'"),
+ "C13_r2": ("C13", "src/parser/mod.rs: consecutive-value test `i.wrapping_sub(last) > 1`",
+            "two runs more than i64::MAX apart: classified gapless, so iter(mode=range) on an enum with holes is accepted"),
+ "C18_r2": ("C18", "src/parser/values.rs: `negate` hoisted out of the per-variant block and never reset",
+            "a negative explicit discriminant followed later by a positive explicit one: {A=-3, B=1, C=2} is parsed as {-3,-1,-2} but the permutation {B=1, C=2, A=-3} correctly"),
 }
 
 HERE = os.path.dirname(os.path.abspath(__file__))
@@ -75,12 +101,12 @@ def main():
         files = sorted(os.listdir(d))
         meta = {
             "id": name, "breaks_property": prop, "change": change, "needs_to_manifest": needs,
-            "origin": "written by an independent sub-agent that saw only the property text and a scratch worktree of /repo (HEAD 14b005f), nothing from /verif",
+            "origin": "written by an independent sub-agent that saw only the property text and a scratch worktree of /repo (HEAD 14b005f), nothing from /verif; round-2 agents (*_r2) were additionally told which mechanisms had already been used, so that they pick different ones",
             "files": [f for f in files if f != "meta.json"],
             "confirmed_by_me": {
                 "how": "tools/confirm_mutation.sh in a scratch worktree: git apply patch; cargo test --workspace --no-fail-fast --offline (existing suite); demo copied to tests/ and run with the change; git checkout -- src; demo run again",
                 "existing_suite_with_change": "29 'test result: ok' lines, 0 failed (48 tests + doc tests)",
-                "demo_with_change": "fails" if name not in ("C13_a", "C13_b", "C02_b") else
+                "demo_with_change": "fails" if name not in ("C13_a", "C13_b", "C02_b", "C13_r2") else
                                     ("contradictory configuration ACCEPTED (demo script)" if name.startswith("C13") else "cargo +nightly miri test reports 'Undefined Behavior: reading memory ... uninitialized' (native run passes)"),
                 "demo_without_change": "passes" if not name.startswith("C13") else "REJECTED by the macro with the documented message",
             },
